@@ -17,6 +17,29 @@ T byte for byte and every block attribute with the model.
 Violations are keyed by mechanism (which parser complaint, which class of line
 differs in the output, which attribute differs), shrunk to a small model that
 still shows the same mechanism, and replayable.
+
+SECOND USE of the same objects (case kinds 'reuse' and 'handout'; the same oracle, applied to objects that
+are not fresh):
+
+* 'reuse' - one Changelog object parses several texts in turn (constructor with a text, then
+  ``parse_changelog`` a second / third / fourth time; two objects of one case interleaved).  Texts between
+  the judged ones may be DAMAGED (trailing garbage, editor-variable / old-format tails, truncation, junk
+  before the first heading or inside a block, a bad trailer or heading, max_blocks, None, empty; strict and
+  non-strict) - they are never judged, they only leave state behind.  After every parse of a text inside
+  the grammar the object must be exactly the model of THAT text (str, len, iteration, attributes,
+  versions, version; initial_blank_lines equal to those of a fresh object of the same text); the other
+  object of the case must still be its own last text.  A disagreement that a fresh object given the same
+  text in the same form does not show is keyed ``reused-object-differs-from-fresh/<what>``; one on the
+  other object ``earlier-object-changed-by-later-parse/<what>``.
+* 'handout' - the caller mutates values the object handed out (Version objects from block.version,
+  cl.version, cl.get_version(), cl.versions[i], cl.get_versions()[i], cl[i] / cl[str] / cl[Version]
+  lookups; the lists/dicts from changes(), other_pairs, bugs_closed, lp_bugs_closed,
+  other_keys_normalised(), versions, get_versions(), initial_blank_lines).  After EVERY mutation: the
+  blocks the value did not come from, the objects built before (same text, other texts sharing the
+  version string) and objects built afterwards (same text, other texts) must still be exactly their
+  models.  What the block the value came from shows afterwards is the library's choice; it must only
+  agree with itself (block.version / cl.versions[i] / cl.version = the version in that block's own
+  heading line).  Keys ``handed-out-mutation.../mutated:<class of the mutated value>``.
 """
 import collections
 import datetime
@@ -36,7 +59,21 @@ RULE = ('Each case is a structured changelog model (1..5 blocks; package over [a
         'parentheses/dots/non-ASCII, dates with and without weekday, 1- and 2-digit days, both zone signs) rendered '
         'to text by the statement\'s grammar and parsed in every input form, plus a fixed one-feature-at-a-time '
         'matrix.  A case is non-trivial when it has >= 2 blocks, or an urgency comment, or extra key=values, or a '
-        'blank line between two change lines of one block.')
+        'blank line between two change lines of one block.  SECOND-USE classes (separate random streams, plus fixed '
+        'matrices of 286 + 253 cases): (a) "reuse" histories - one Changelog object parses 2..4 texts in turn '
+        '(first use by Changelog(text) / Changelog(file=text) / Changelog().parse_changelog, later uses by '
+        'parse_changelog positional or file=; strict given, defaulted or False; every data form), optionally a '
+        'second object interleaved; 45% of the non-final texts are damaged (trailing garbage / comment / editor '
+        'variables / old-format tail / extra heading, truncation, junk before the first heading, junk inside a block, '
+        'one-space trailer, bad heading key=value, max_blocks, None, empty text) and only leave state behind; every '
+        'parse of an undamaged text is judged by the model of that text and, from the second use on, against a '
+        'fresh object of the same text; (b) "handout" cases - 1..3 caller-side mutations of handed-out values '
+        '(Version objects from 8 access paths x epoch/upstream_version/debian_revision/debian_version/full_version; '
+        'lists and dicts from changes(), other_pairs, bugs_closed, lp_bugs_closed, other_keys_normalised(), '
+        'versions, get_versions(), initial_blank_lines) on a 1..4 block changelog in which 60% of the multi-block '
+        'models repeat a version string, with a sibling object of the same text and 1..2 objects of other texts '
+        '(85% sharing the version string) built before, and fresh objects of all those texts built after every '
+        'mutation.  A second-use case is non-trivial when at least one second use was judged / one mutation applied.')
 ASSUMPTIONS = [
     'the generator + render() emit only texts of the deb-changelog(5) grammar quoted in the statement: single spaces in '
     'the header, lower-case "urgency" keyword, ", " between key=value items, two spaces before the date, empty '
@@ -49,6 +86,33 @@ ASSUMPTIONS = [
     'change text may contain the non-LF Unicode/ASCII line boundaries U+000C, U+0085, U+2028, U+2029: a line of a '
     'changelog ends at LF only (dpkg-parsechangelog); disagreements caused by them are reported under their own key',
     'input encoding is UTF-8 (library default)',
+    'second use (a): only parses of texts inside the grammar are judged; damaged texts (and None / empty input) are '
+    'never judged, whatever the library does with them (raise, warn, accept) only produces the state the next judged '
+    'parse has to replace; a judged parse may be non-strict (constructor default) - for a text of the grammar a '
+    'non-strict parse takes the decisions of the strict one unless the parser complains, and a complaint is the '
+    'violation "parse-warns-on-wellformed" either way',
+    'second use (a): a disagreement on a reused object counts as a second-use finding only if a FRESH object given the '
+    'same text in the same form does not show it (otherwise it keeps its ordinary key); initial_blank_lines is compared '
+    'with that fresh object, not with a fixed representation; whether parse_changelog(encoding=...) is remembered by '
+    'the object is not exercised (bytes(cl) uses the stored encoding - either design is defensible)',
+    'second use (b): what the block (or changelog-level list) a mutated value CAME FROM shows afterwards is the '
+    'library\'s choice (the unchanged tree hands out fresh Version objects / fresh versions lists / fresh bugs lists, '
+    'but the live changes() list, other_pairs dict and initial_blank_lines list): for that block only self-agreement is '
+    'demanded - block.version, cl.versions[i] and (first block) cl.version / cl.get_version() equal the version in the '
+    'heading line of str(block) as it is now; if its attributes still equal the model and no live container was '
+    'mutated the whole object is re-judged (str == text), otherwise only the text before the heading of the first '
+    'touched block and from the heading after the last touched block is compared',
+    'second use (b): blocks the value did not come from (also those carrying the same version string), Changelog '
+    'objects that existed before the mutation and Changelog objects built after it must be exactly their own model; '
+    'every such object was judged clean before the first mutation (a failure there is reported under its ordinary key, '
+    'or earlier-object-changed-by-later-parse/ if the text parsed on its own is clean)',
+    'second use (b): cl[str] / cl[Version] lookups - the block the library returns (identified by identity among the '
+    'iterated blocks) is the touched one, which block that is for equal-comparing versions is not judged; bugs_closed, '
+    'lp_bugs_closed and other_keys_normalised() are mutated but never judged themselves (not in the statement); a '
+    'mutation the library refuses (ValueError, KeyError on an empty dict) is counted, not judged',
+    'a finding of the ordinary kind made after this process mutated handed-out values is re-executed in a fresh '
+    'interpreter (4 per shard); if it is clean there it is keyed depends-on-earlier-calls-in-this-process/<key> and the '
+    'witness is the sequence (earlier mutating case, this case)',
 ]
 ANCHORS = ['debian.changelog:Changelog.parse_changelog',
            'debian.changelog:Changelog._format',
@@ -62,9 +126,12 @@ MUST_REACH = ['debian.changelog:Changelog.parse_changelog',
               'debian.changelog:ChangeBlock._format']
 
 TEXTS = {'quick': 16000, 'thorough': 600000}     # random models, total over all shards
+REUSE = {'quick': 3000, 'thorough': 100000}      # second-use histories (one object, several texts)
+HANDOUT = {'quick': 3000, 'thorough': 100000}    # caller-side mutation of handed-out values
 
 FLOORS = {
-    # ~50% of what a run on the current tree measures (quick: 16353 cases; thorough: 600353 cases)
+    # ~50% of what a run on the current tree measures (quick: 16353 ordinary cases; thorough: 600353);
+    # the floors of the second-use classes are added below (_Q2 / _T2)
     'quick': {'nontrivial': 7000,
               'monitors': {'M': 73000, 'M.attrs': 170000},
               'counters': {'feat:urgency-comment': 4700, 'feat:extra-kv': 5600, 'feat:extra-kv-2': 1800,
@@ -93,6 +160,67 @@ FLOORS = {
                               'form:lines-nl': 300000, 'form:blines': 300000, 'form:file': 300000,
                               'form:bfile': 300000, 'form:iter': 300000, 'form:method': 300000, 'matrix': 170}},
 }
+
+# floors of the second-use classes: ~50% of the minimum over quick seeds 0-3 / of thorough seed 0 on the unchanged
+# tree.  Only counters that do not depend on what the library does with a damaged text or a mutation are floored.
+_Q2 = {'handout:case': 1600,
+       'handout:existing-object:other-text:shares-version-string': 2500,
+       'handout:existing-object:same-text:shares-version-string': 2300,
+       'handout:fresh-object:other-text:shares-version-string': 2500,
+       'handout:fresh-object:same-text:shares-version-string': 4700,
+       'handout:src:block.bugs_closed': 100, 'handout:src:block.changes()': 100,
+       'handout:src:block.lp_bugs_closed': 100, 'handout:src:block.other_keys_normalised()': 95,
+       'handout:src:block.other_pairs': 100, 'handout:src:block.version': 200,
+       'handout:src:cl.get_version()': 190, 'handout:src:cl.get_versions()': 95,
+       'handout:src:cl.get_versions()[i]': 180, 'handout:src:cl.initial_blank_lines': 95,
+       'handout:src:cl.version': 190, 'handout:src:cl.versions': 100, 'handout:src:cl.versions[i]': 180,
+       'handout:src:cl[Version].version': 200, 'handout:src:cl[i].version': 200, 'handout:src:cl[str].version': 200,
+       'handout:untouched-block': 2600, 'handout:untouched-block-with-the-same-version-string': 950,
+       'handout:version-attr:debian_revision': 330, 'handout:version-attr:debian_version': 110,
+       'handout:version-attr:epoch': 450, 'handout:version-attr:full_version': 340,
+       'handout:version-attr:upstream_version': 330,
+       'matrix:handout': 120, 'matrix:reuse': 140,
+       'reuse:after-damaged-text:badhead': 120, 'reuse:after-damaged-text:empty': 130,
+       'reuse:after-damaged-text:lead': 140, 'reuse:after-damaged-text:max': 130,
+       'reuse:after-damaged-text:mid': 130, 'reuse:after-damaged-text:none': 120,
+       'reuse:after-damaged-text:trail': 160, 'reuse:after-damaged-text:trailer1': 120,
+       'reuse:after-damaged-text:trunc': 130,
+       'reuse:after:clean': 1400, 'reuse:blocks:fewer': 1000, 'reuse:blocks:more': 990, 'reuse:case': 1600,
+       'reuse:leading-blank-lines:fewer': 1000, 'reuse:leading-blank-lines:more': 950,
+       'reuse:object-made-by-constructor-with-text': 1600, 'reuse:second-use': 1200,
+       'reuse:third-or-later-use': 1400}
+_T2 = {'handout:case': 50000,
+       'handout:existing-object:other-text:shares-version-string': 83000,
+       'handout:existing-object:same-text:shares-version-string': 75000,
+       'handout:fresh-object:other-text:shares-version-string': 83000,
+       'handout:fresh-object:same-text:shares-version-string': 150000,
+       'handout:src:block.bugs_closed': 3500, 'handout:src:block.changes()': 3500,
+       'handout:src:block.lp_bugs_closed': 3500, 'handout:src:block.other_keys_normalised()': 3500,
+       'handout:src:block.other_pairs': 3500, 'handout:src:block.version': 6400,
+       'handout:src:cl.get_version()': 6400, 'handout:src:cl.get_versions()': 3500,
+       'handout:src:cl.get_versions()[i]': 6400, 'handout:src:cl.initial_blank_lines': 3500,
+       'handout:src:cl.version': 6400, 'handout:src:cl.versions': 3500, 'handout:src:cl.versions[i]': 6400,
+       'handout:src:cl[Version].version': 6400, 'handout:src:cl[i].version': 6400,
+       'handout:src:cl[str].version': 6400,
+       'handout:untouched-block': 81000, 'handout:untouched-block-with-the-same-version-string': 29000,
+       'handout:version-attr:debian_revision': 11000, 'handout:version-attr:debian_version': 3700,
+       'handout:version-attr:epoch': 14900, 'handout:version-attr:full_version': 11000,
+       'handout:version-attr:upstream_version': 11000,
+       'matrix:handout': 120, 'matrix:reuse': 140,
+       'reuse:after-damaged-text:badhead': 4200, 'reuse:after-damaged-text:empty': 4200,
+       'reuse:after-damaged-text:lead': 4200, 'reuse:after-damaged-text:max': 4200,
+       'reuse:after-damaged-text:mid': 4200, 'reuse:after-damaged-text:none': 4200,
+       'reuse:after-damaged-text:trail': 4200, 'reuse:after-damaged-text:trailer1': 4200,
+       'reuse:after-damaged-text:trunc': 4200,
+       'reuse:after:clean': 48000, 'reuse:blocks:fewer': 32000, 'reuse:blocks:more': 32000, 'reuse:case': 50000,
+       'reuse:leading-blank-lines:fewer': 31000, 'reuse:leading-blank-lines:more': 31000,
+       'reuse:object-made-by-constructor-with-text': 52000, 'reuse:second-use': 39000,
+       'reuse:third-or-later-use': 48000}
+FLOORS['quick']['counters'].update(_Q2)
+FLOORS['thorough']['counters'].update(_T2)
+FLOORS['quick']['monitors'].update({'M.reuse': 2700, 'M.reuse.other': 950, 'M.handout': 2500, 'M.handout.later': 14000})
+FLOORS['thorough']['monitors'].update({'M.reuse': 87000, 'M.reuse.other': 35000, 'M.handout': 80000,
+                                       'M.handout.later': 450000})
 
 # ---------------------------------------------------------------------------
 # grammar (render + independent validity check of a model)
@@ -503,10 +631,39 @@ def cases(ctx):
         if ctx.mine(i):
             m['matrix'] = 1
             yield m
+    for i, c in enumerate(reuse_matrix()):
+        if ctx.mine(i):
+            c['matrix'] = 1
+            yield c
+    for i, c in enumerate(handout_matrix()):
+        if ctx.mine(i):
+            c['matrix'] = 1
+            yield c
     r = ctx.rng('models')
+    rr = ctx.rng('reuse')
+    rh = ctx.rng('handout')
     wide = ctx.tier == 'thorough'
-    for _ in range(ctx.size(TEXTS['quick'], TEXTS['thorough'])):
+    n = ctx.size(TEXTS['quick'], TEXTS['thorough'])
+    nr = ctx.size(REUSE['quick'], REUSE['thorough'])
+    nh = ctx.size(HANDOUT['quick'], HANDOUT['thorough'])
+    done_r = done_h = 0
+    # the second-use classes are interleaved with the ordinary texts (separate random streams: the ordinary
+    # stream is what it was before these classes existed); an eighth of them runs first, before the process
+    # has seen many texts (a bounded cache inside the library would be full later)
+    while done_r * 8 < nr:
+        yield gen_reuse(rr, wide or rr.random() < 0.3)
+        done_r += 1
+    while done_h * 8 < nh:
+        yield gen_handout(rh, wide or rh.random() < 0.3)
+        done_h += 1
+    for j in range(n):
         yield gen_model(r, wide or r.random() < 0.3)
+        while done_r < nr and (done_r - nr // 8) * n < (j + 1) * (nr - nr // 8):
+            yield gen_reuse(rr, wide or rr.random() < 0.3)
+            done_r += 1
+        while done_h < nh and (done_h - nh // 8) * n < (j + 1) * (nh - nh // 8):
+            yield gen_handout(rh, wide or rh.random() < 0.3)
+            done_h += 1
 
 
 # ---------------------------------------------------------------------------
@@ -677,6 +834,1023 @@ def evaluate(case, stats=None):
 
 
 # ---------------------------------------------------------------------------
+# SECOND USE of the same objects, class (a): one Changelog object parses several texts in turn
+#
+# case = {'kind': 'reuse', 'steps': [step, ...]}
+# step = {'o': 0|1            which Changelog object of the case the step is executed on
+#         'via': 'ctor' | 'ctor-kw' | 'method' | 'method-kw'
+#                             ctor*: the object is CREATED by this step, Changelog(data, ...) / Changelog(file=data, ...)
+#                             method*: obj.parse_changelog(data, ...) / obj.parse_changelog(file=data, ...); an object
+#                             that does not exist yet is created with Changelog() first
+#         'm': <'cl' model>   always a model inside the grammar
+#         'form': one of DATA_FORMS
+#         'strict': True | False | None (argument left out: constructor default False, method default True)
+#         'dirt': None        the text is render(m): a JUDGED step
+#                 or [kind, ...]  the text is render(m) damaged (see dirty_input): NEVER judged, it only
+#                             produces the state the next judged step has to get rid of}
+
+DATA_FORMS = ('str', 'bytes', 'lines', 'lines-nl', 'blines', 'file', 'bfile', 'iter')
+VIAS = ('ctor', 'ctor-kw', 'method', 'method-kw')
+DIRT_KINDS = ('trail', 'trunc', 'lead', 'mid', 'trailer1', 'badhead', 'max', 'none', 'empty')
+TRAIL_JUNK = [['# comment after the last block'], ['vim: set ft=changelog:', 'anything at all'],
+              ['Local variables:', 'mode: debian-changelog', 'End:'], ['garbage'], ['', 'garbage line', ''],
+              ['Old Changelog:', 'free text', '  * more'], ['$Id: changelog 1 $'], ['/* c comment */'],
+              ['hello (0.1) unstable'], ['  * stray change'], ['', '', ''],
+              [' -- A B <a@b.c>  Mon, 06 Jan 2020 01:02:03 +0000'], ['hello (0.0-1) unstable; urgency=low']]
+LEAD_JUNK = [['garbage'], ['# comment before the first block'], ['  * stray change'], ['$Id: x $', ''],
+             [' -- A B <a@b.c>  Mon, 06 Jan 2020 01:02:03 +0000'], ['', 'garbage', ''], ['/* c */']]
+MID_JUNK = ['garbage', 'x', 'not indented: text', ' one blank only', '--']
+HEAD_JUNK = [', junk', ', urgency=high', ', =x', ', binary-only']
+EMPTY_TEXTS = ['', '\n', '\n\n\n', '  \n', ' ']
+
+
+def _is_model(m):
+    return isinstance(m, dict) and m.get('kind') == 'cl' and m.get('form') is None and grammar_problem(m) is None
+
+
+def _strs(x):
+    return isinstance(x, list) and all(isinstance(l, str) and '\n' not in l and '\r' not in l for l in x)
+
+
+def dirt_problem(m, dirt):
+    if dirt is None:
+        return None
+    if not (isinstance(dirt, list) and dirt and dirt[0] in DIRT_KINDS):
+        return 'dirt'
+    k = dirt[0]
+    nb = len(m['blocks'])
+    ok = {'trail': lambda: len(dirt) == 2 and _strs(dirt[1]) and dirt[1],
+          'lead': lambda: len(dirt) == 2 and _strs(dirt[1]) and dirt[1],
+          'trunc': lambda: len(dirt) == 2 and isinstance(dirt[1], int) and dirt[1] >= 1,
+          'mid': lambda: len(dirt) == 3 and isinstance(dirt[1], int) and 0 <= dirt[1] < nb and _strs([dirt[2]]),
+          'trailer1': lambda: len(dirt) == 2 and isinstance(dirt[1], int) and 0 <= dirt[1] < nb,
+          'badhead': lambda: len(dirt) == 3 and isinstance(dirt[1], int) and 0 <= dirt[1] < nb and _strs([dirt[2]]),
+          'max': lambda: len(dirt) == 2 and isinstance(dirt[1], int) and dirt[1] >= 0,
+          'none': lambda: len(dirt) == 1,
+          'empty': lambda: len(dirt) == 2 and isinstance(dirt[1], str) and not dirt[1].strip()}[k]()
+    return None if ok else 'dirt ' + k
+
+
+def reuse_problem(case):
+    try:
+        steps = case['steps']
+        if not (isinstance(steps, list) and 1 <= len(steps) <= 12):
+            return 'steps'
+        created = set()
+        for st in steps:
+            if st['o'] not in (0, 1) or st['via'] not in VIAS or st['form'] not in DATA_FORMS:
+                return 'step'
+            if st.get('strict') not in (True, False, None):
+                return 'strict'
+            if not _is_model(st['m']):
+                return 'step model outside the grammar'
+            why = dirt_problem(st['m'], st.get('dirt'))
+            if why:
+                return why
+            created.add(st['o'])
+    except (KeyError, TypeError, ValueError, IndexError) as e:
+        return 'malformed reuse case (%s)' % type(e).__name__
+    return None
+
+
+def dirty_input(m, dirt, form):
+    """(data, extra keyword arguments) for a damaged step."""
+    text, lines, classes = render(m)
+    lines = list(lines)
+    k = dirt[0]
+    kw = {}
+    if k == 'none':
+        return None, kw
+    if k == 'empty':
+        return (dirt[1].encode('utf-8') if form in ('bytes', 'blines', 'bfile') else dirt[1]), kw
+    heads = [i for i, c in enumerate(classes) if c == 'header-line']
+    tails = [i for i, c in enumerate(classes) if c == 'trailer-line']
+    if k == 'trail':
+        lines = lines + list(dirt[1])
+    elif k == 'lead':
+        lines = list(dirt[1]) + lines
+    elif k == 'trunc':
+        lines = lines[:max(1, len(lines) - dirt[1])]
+    elif k == 'mid':
+        at = min(heads[dirt[1]] + 2, tails[dirt[1]])
+        lines.insert(at, dirt[2])
+    elif k == 'trailer1':
+        i = tails[dirt[1]]
+        a, b = lines[i].rsplit('>  ', 1)
+        lines[i] = a + '> ' + b
+    elif k == 'badhead':
+        lines[heads[dirt[1]]] += dirt[2]
+    elif k == 'max':
+        kw['max_blocks'] = dirt[1]
+    return build_input(form, '\n'.join(lines) + '\n', lines), kw
+
+
+def _call_step(dc, objs, st, data, kw):
+    """Execute one step; returns the exception it raised (or None).  objs[o] is set as soon as the object exists."""
+    o, via = st['o'], st['via']
+    kw = dict(kw)
+    if st.get('strict') is not None:
+        kw['strict'] = st['strict']
+    try:
+        if o not in objs and via.startswith('ctor'):
+            objs[o] = dc.Changelog(data, **kw) if via == 'ctor' else dc.Changelog(file=data, **kw)
+            return None
+        if o not in objs:
+            objs[o] = dc.Changelog()
+        if via.endswith('-kw'):
+            objs[o].parse_changelog(file=data, **kw)
+        else:
+            objs[o].parse_changelog(data, **kw)
+        return None
+    except Exception as e:
+        return e
+
+
+def run_reuse(case, stats=None):
+    from debian import changelog as dc
+    if stats is None:
+        stats = collections.Counter()
+    found = []
+    objs = {}
+    uses = collections.Counter()     # o -> calls already made on the existing object (incl. its constructor call)
+    prev = {}                        # o -> (tag of the previous step, its model)
+    clean = {}                       # o -> (m, text, lines, classes) while the object is known to hold exactly m
+    stats['reuse:case'] += 1
+    for si, st in enumerate(case['steps']):
+        o, m, form, dirt = st['o'], st['m'], st['form'], st.get('dirt')
+        text, lines, classes = render(m)
+        existed = o in objs
+        if dirt is None:
+            data, kw = build_input(form, text, lines), {}
+        else:
+            data, kw = dirty_input(m, dirt, form)
+        with warnings.catch_warnings(record=True) as caught:
+            warnings.simplefilter('always')
+            exc = _call_step(dc, objs, st, data, kw)
+        nth = uses[o] if existed else 0
+        label = 'step %d, object %d, %s, %s' % (si, o, st['via'], form)
+        if dirt is not None:
+            how = ('raised-' + type(exc).__name__) if exc is not None else ('warned' if caught else 'silent')
+            stats['reuse:dirty-step:%s:%s' % (dirt[0], how)] += 1
+            clean[o] = None
+            tag = 'dirty:%s:%s' % (dirt[0], 'raised' if exc is not None else ('warned' if caught else 'silent'))
+        else:
+            res = []
+            if isinstance(exc, dc.ChangelogParseError):
+                res.append(('strict-parse-rejects-wellformed/' + classify_parse_error(str(exc)),
+                            '[%s] strict parse of a well-formed changelog raised: %s' % (label, _r(str(exc)))))
+            elif exc is not None:
+                res.append(('parse-raises/' + type(exc).__name__, '[%s] %s: %s' % (label, type(exc).__name__, _r(str(exc)))))
+            else:
+                if caught:
+                    res.append(('parse-warns-on-wellformed/' + classify_parse_error(str(caught[0].message)),
+                                '[%s] parse warned: %s' % (label, _r(str(caught[0].message)))))
+                res.extend(judge_object(objs[o], m, label, text, lines, classes, stats))
+            if nth >= 1:
+                stats['M.reuse'] += 1
+                stats['reuse:second-use' if nth == 1 else 'reuse:third-or-later-use'] += 1
+                ptag, pm = prev[o]
+                stats['reuse:after:' + ptag] += 1
+                if ptag.startswith('dirty:'):
+                    stats['reuse:after-damaged-text:' + ptag.split(':')[1]] += 1
+                if not st['via'].startswith('ctor') and uses.get(('ctor', o)):
+                    stats['reuse:object-made-by-constructor-with-text'] += 1
+                d = len(m['blocks']) - len(pm['blocks'])
+                stats['reuse:blocks:' + ('fewer' if d < 0 else 'more' if d > 0 else 'same')] += 1
+                dl = m.get('lead', 0) - pm.get('lead', 0)
+                stats['reuse:leading-blank-lines:' + ('fewer' if dl < 0 else 'more' if dl > 0 else 'same')] += 1
+                # control: the same text, same form, FRESH object
+                ctl_res, ctl = None, None
+                if exc is None:
+                    try:
+                        with warnings.catch_warnings(record=True):
+                            warnings.simplefilter('always')
+                            ctl = dc.Changelog(build_input(form, text, lines), strict=True)
+                        a, b = list(objs[o].initial_blank_lines), list(ctl.initial_blank_lines)
+                        if a != b:
+                            res.append(('initial-blank-lines-differ', '[%s] initial_blank_lines %s, a fresh Changelog of the '
+                                        'same text has %s' % (label, _r(a), _r(b))))
+                    except Exception:
+                        ctl = None
+                if res:
+                    ctl_keys = set(k for k, _m in check_form(m, form, text, lines, classes, None))
+                    for k, msg in res:
+                        if k in ctl_keys:
+                            found.append((k, msg))
+                        else:
+                            found.append(('reused-object-differs-from-fresh/' + k,
+                                          '%s  [the object had parsed %d text(s) before (previous call: %s); a fresh '
+                                          'Changelog given the same text in the same form does not show this]'
+                                          % (msg, nth, ptag)))
+            else:
+                found.extend(res)
+            clean[o] = None if res else (m, text, lines, classes)
+            tag = 'clean'
+        if o in objs:
+            uses[o] += 1
+            if not existed and st['via'].startswith('ctor'):
+                uses[('ctor', o)] = 1
+        prev[o] = (tag, m)
+        # the OTHER object of the case must not notice
+        for o2, stt in list(clean.items()):
+            if o2 != o and stt is not None and o2 in objs:
+                stats['M.reuse.other'] += 1
+                r2 = judge_object(objs[o2], stt[0], 'object %d re-read after step %d on object %d' % (o2, si, o),
+                                  stt[1], stt[2], stt[3], None)
+                for k, msg in r2:
+                    found.append(('earlier-object-changed-by-later-parse/' + k, msg))
+                if r2:
+                    clean[o2] = None
+    return _dedupe(found)
+
+
+def _dedupe(found):
+    """One entry per key; for the caller-side mutation keys one per key stem (a disagreement that is still there
+    after the NEXT mutation belongs to the one after which it was first seen)."""
+    out, seen = [], set()
+    for k, m in found:
+        stem = k.split('/mutated:', 1)[0]
+        if stem not in seen:
+            seen.add(stem)
+            out.append((k, m))
+    return out
+
+
+# ---------------------------------------------------------------------------
+# SECOND USE of the same objects, class (b): the caller mutates values the object handed out
+#
+# case = {'kind': 'handout', 'm': <'cl' model>, 'form': FORMS member,
+#         'muts': [{'src': source, 'blk': block index, 'op': [...]}, ...],
+#         'later': [<'cl' model>, ...]}     other texts (usually sharing a version string with a touched block)
+
+VERSION_SRCS = ('block.version', 'cl[i].version', 'cl[str].version', 'cl[Version].version', 'cl.version',
+                'cl.get_version()', 'cl.versions[i]', 'cl.get_versions()[i]')
+FIRST_ONLY_SRCS = ('cl.version', 'cl.get_version()')
+CONTAINER_SRCS = {'block.changes()': 'changes-list', 'block.other_pairs': 'other-pairs-dict',
+                  'block.bugs_closed': 'bugs-list', 'block.lp_bugs_closed': 'bugs-list',
+                  'block.other_keys_normalised()': 'normalised-keys-dict', 'cl.versions': 'versions-list',
+                  'cl.get_versions()': 'versions-list', 'cl.initial_blank_lines': 'initial-blank-lines-list'}
+VERSION_ATTRS = ('epoch', 'upstream_version', 'debian_revision', 'debian_version', 'full_version')
+VERSION_OPS = [['epoch', '3'], ['epoch', None], ['epoch', '0'], ['upstream_version', '9.9z'], ['upstream_version', '0'],
+               ['debian_revision', '77'], ['debian_revision', None], ['debian_version', '8~x'],
+               ['full_version', '7:6.5-4'], ['full_version', '0']]
+LIST_OPS = [['append', '  * injected by the caller'], ['insert0', '  * injected first'], ['clear'], ['pop'],
+            ['set0', '  * overwritten by the caller'], ['reverse'], ['extend', ['', '  * two', '']]]
+DICT_OPS = [['set', 'X-Injected', 'yes'], ['set', 'binary-only', 'injected'], ['clear'], ['popitem']]
+INT_LIST_OPS = [['append', 999999], ['clear']]
+VLIST_OPS = [['append-version', '99:9-9'], ['clear'], ['pop'], ['reverse'], ['item', 0, 'debian_revision', '66'],
+             ['item', 0, 'full_version', '4:3-2']]
+BLANK_OPS = [['append', ''], ['clear'], ['append', 'caller text']]
+LIVE_CLASSES = frozenset(['changes-list', 'other-pairs-dict', 'initial-blank-lines-list'])
+
+
+def _ops_for(src):
+    if src in VERSION_SRCS:
+        return VERSION_OPS
+    return {'changes-list': LIST_OPS, 'other-pairs-dict': DICT_OPS, 'bugs-list': INT_LIST_OPS,
+            'normalised-keys-dict': DICT_OPS, 'versions-list': VLIST_OPS,
+            'initial-blank-lines-list': BLANK_OPS}[CONTAINER_SRCS[src]]
+
+
+def _src_class(src):
+    return 'version-object' if src in VERSION_SRCS else CONTAINER_SRCS[src]
+
+
+def handout_problem(case):
+    try:
+        if not _is_model(case['m']):
+            return 'model outside the grammar'
+        if case['form'] not in FORMS:
+            return 'form'
+        nb = len(case['m']['blocks'])
+        if not (isinstance(case['muts'], list) and 1 <= len(case['muts']) <= 8):
+            return 'muts'
+        for mu in case['muts']:
+            src = mu['src']
+            if src not in VERSION_SRCS and src not in CONTAINER_SRCS:
+                return 'src'
+            if not (isinstance(mu['blk'], int) and 0 <= mu['blk'] < nb):
+                return 'blk'
+            if src in FIRST_ONLY_SRCS and mu['blk'] != 0:
+                return 'blk of a first-block accessor'
+            op = mu['op']
+            if not (isinstance(op, list) and op):
+                return 'op'
+            if src in VERSION_SRCS:
+                if not (len(op) == 2 and op[0] in VERSION_ATTRS and (op[1] is None or isinstance(op[1], str))):
+                    return 'version op'
+                if op[1] is None and op[0] == 'full_version':
+                    return 'version op'
+            elif op[0] not in ('append', 'insert0', 'clear', 'pop', 'set0', 'reverse', 'extend', 'set', 'popitem',
+                               'append-version', 'item'):
+                return 'container op'
+        if not (isinstance(case.get('later', []), list) and len(case.get('later', [])) <= 4):
+            return 'later'
+        for lm in case.get('later', []):
+            if not _is_model(lm):
+                return 'later model outside the grammar'
+    except (KeyError, TypeError, ValueError, IndexError) as e:
+        return 'malformed handout case (%s)' % type(e).__name__
+    return None
+
+
+def _obtain(dc, cl, src, i, vstr):
+    """(handed-out value, index of the block it belongs to or None)."""
+    from debian.debian_support import Version
+    if src in ('cl[str].version', 'cl[Version].version'):
+        g = cl[vstr] if src == 'cl[str].version' else cl[Version(vstr)]
+        idx = [j for j, x in enumerate(cl) if x is g]
+        return g.version, (idx[0] if idx else None)
+    if src == 'block.version':
+        return list(cl)[i].version, i
+    if src == 'cl[i].version':
+        return cl[i].version, i
+    if src == 'cl.version':
+        return cl.version, 0
+    if src == 'cl.get_version()':
+        return cl.get_version(), 0
+    if src == 'cl.versions[i]':
+        return cl.versions[i], i
+    if src == 'cl.get_versions()[i]':
+        return cl.get_versions()[i], i
+    if src == 'cl.versions':
+        return cl.versions, None
+    if src == 'cl.get_versions()':
+        return cl.get_versions(), None
+    if src == 'cl.initial_blank_lines':
+        return cl.initial_blank_lines, None
+    g = list(cl)[i]
+    if src == 'block.changes()':
+        return g.changes(), i
+    if src == 'block.other_pairs':
+        return g.other_pairs, i
+    if src == 'block.bugs_closed':
+        return g.bugs_closed, i
+    if src == 'block.lp_bugs_closed':
+        return g.lp_bugs_closed, i
+    if src == 'block.other_keys_normalised()':
+        return g.other_keys_normalised(), i
+    raise ValueError(src)
+
+
+def _apply(value, src, op):
+    from debian.debian_support import Version
+    if src in VERSION_SRCS:
+        setattr(value, op[0], op[1])
+        return
+    k = op[0]
+    if k == 'append':
+        value.append(op[1])
+    elif k == 'insert0':
+        value.insert(0, op[1])
+    elif k == 'clear':
+        value.clear()
+    elif k == 'pop':
+        value.pop()
+    elif k == 'set0':
+        value[0] = op[1]
+    elif k == 'reverse':
+        value.reverse()
+    elif k == 'extend':
+        value.extend(op[1])
+    elif k == 'set':
+        value[op[1]] = op[2]
+    elif k == 'popitem':
+        value.popitem()
+    elif k == 'append-version':
+        value.append(Version(op[1]))
+    elif k == 'item':
+        setattr(value[op[1]], op[2], op[3])
+    else:
+        raise ValueError(k)
+
+
+def _heading_version(g):
+    """The version the block's own heading line shows now (None if the block cannot be formatted)."""
+    try:
+        head = str(g).split('\n', 1)[0]
+    except Exception:
+        return None
+    a = head.find('(')
+    z = head.find(')', a + 1)
+    if a < 0 or z < 0:
+        return None
+    return head[a + 1:z]
+
+
+# what this process did to handed-out values so far (an ordinary case that fails afterwards may be a consequence)
+TAINT = {}             # version string -> the handout case that mutated a Version handed out for it
+TAINTED = [None]       # the last handout case that mutated anything
+CONFIRM_BUDGET = [4]     # findings per shard process re-executed in a fresh interpreter
+SHRINK_BUDGET = [40]     # second-use witnesses per shard process that are shrunk
+STATEFUL_KEYS = set()
+
+
+def _fresh(dc, m, form):
+    """(Changelog or None, rendering, [(key, msg)]) - parse one model freshly and judge it."""
+    text, lines, classes = render(m)
+    res = check_form(m, form, text, lines, classes, None)
+    return res
+
+
+def run_handout(case, stats=None):
+    from debian import changelog as dc
+    if stats is None:
+        stats = collections.Counter()
+    m, form = case['m'], case['form']
+    blocks = m['blocks']
+    nb = len(blocks)
+    text, lines, classes = render(m)
+    stats['handout:case'] += 1
+
+    def parse(model, f):
+        t, ls, cs = render(model)
+        with warnings.catch_warnings(record=True) as caught:
+            warnings.simplefilter('always')
+            if f == 'method':
+                c = dc.Changelog()
+                c.parse_changelog(build_input(f, t, ls), strict=True)
+            else:
+                c = dc.Changelog(build_input(f, t, ls), strict=True)
+        return c, (t, ls, cs), list(caught)
+
+    # -- before any mutation: subject, a sibling of the same text, objects of the other texts; all must be clean
+    kept = []       # (relation, object, model, rendering)
+    try:
+        cl, rend, w0 = parse(m, form)
+        sib, _rs, w1 = parse(m, 'lines-nl' if form != 'lines-nl' else 'str')
+        pre = [('[subject] ', cl, m, rend), ('[sibling] ', sib, m, rend)]
+        kept.append(('same-text', sib, m, rend))
+        for lm in case.get('later', []):
+            c2, r2, w2 = parse(lm, 'str')
+            w1 = w1 + w2
+            pre.append(('[other text] ', c2, lm, r2))
+            kept.append(('other-text', c2, lm, r2))
+    except Exception:
+        # a fresh strict parse of a well-formed text failed: that is the ordinary workload's finding
+        stats['handout:baseline-failed'] += 1
+        return _dedupe(check_form(m, form, text, lines, classes, None) +
+                       [x for lm in case.get('later', []) for x in _fresh(dc, lm, 'str')])
+    base = []
+    if w0 or w1:
+        base.append(('parse-warns-on-wellformed/' + classify_parse_error(str((w0 + w1)[0].message)),
+                     '[handout baseline] strict parse warned: %s' % _r(str((w0 + w1)[0].message))))
+    for lab, c, mm, (t, ls, cs) in pre:
+        rb = judge_object(c, mm, 'handout baseline ' + lab.strip('[] '), t, ls, cs, stats)
+        if rb:
+            # judged after ALL objects of the case were built: is it the parse, or did a later parse change it?
+            alone = set(k for k, _m in check_form(mm, 'str', t, ls, cs, None))
+            rb = [(k, msg) if k in alone else
+                  ('earlier-object-changed-by-later-parse/' + k, msg + '  [several Changelog objects alive at the same '
+                   'time; the same text parsed on its own is clean]') for k, msg in rb]
+        base.extend(rb)
+    if base:
+        stats['handout:baseline-failed'] += 1
+        return _dedupe(base)
+
+    found = []
+    later = [('same-text', m, form, rend), ('same-text', m, 'str' if form != 'str' else 'lines', rend)]
+    later += [('other-text', lm, 'str', render(lm)) for lm in case.get('later', [])]
+    touched = set()
+    touched_versions = set()
+    cl_touched = set()
+    classes_used = []
+    for mu in case['muts']:
+        src, i, op = mu['src'], mu['blk'], mu['op']
+        sc = _src_class(src)
+        try:
+            value, idx = _obtain(dc, cl, src, i, blocks[i]['v'])
+        except Exception as e:
+            stats['handout:obtain-raised:%s:%s' % (src, type(e).__name__)] += 1
+            continue
+        if sc not in classes_used:
+            classes_used.append(sc)
+        if idx is not None:
+            touched.add(idx)
+            touched_versions.add(blocks[idx]['v'])
+            if src in VERSION_SRCS:
+                TAINT.setdefault(blocks[idx]['v'], case)
+        else:
+            cl_touched.add(sc)
+            if sc == 'versions-list' and op[0] == 'item' and op[1] < nb:
+                TAINT.setdefault(blocks[op[1]]['v'], case)
+                touched.add(op[1])
+                touched_versions.add(blocks[op[1]]['v'])
+        TAINTED[0] = case
+        stats['handout:src:' + src] += 1
+        if src in VERSION_SRCS:
+            stats['handout:version-attr:' + op[0]] += 1
+        try:
+            _apply(value, src, op)
+            stats['handout:mutated:' + src] += 1
+        except Exception as e:
+            stats['handout:mutation-raised:%s' % type(e).__name__] += 1
+        tagc = '/mutated:' + sc      # observations are made after every single mutation: blame the last one
+        label = 'after %s %s on block %s' % (src, _r(op, 80), idx)
+        # ---- the subject itself
+        stats['M.handout'] += 1
+        try:
+            got = list(cl)
+            if len(got) != nb or len(cl) != nb:
+                found.append(('handed-out-mutation-changed-block-count' + tagc,
+                              '[%s] %d blocks written, iteration gives %d, len() %d' % (label, nb, len(got), len(cl))))
+                break
+            vers = [str(v) for v in cl.versions]
+            # values a block may legitimately hand out LIVE (the unchanged tree does): after mutating one of them
+            # the text of THAT block is the library's business
+            all_same = not (set(classes_used) & LIVE_CLASSES)
+            for j, (b, g) in enumerate(zip(blocks, got)):
+                probs = block_problems(b, g)
+                if j in touched:
+                    stats['handout:touched-block:' + ('changed' if probs else 'unchanged')] += 1
+                    if probs:
+                        all_same = False
+                    hv = _heading_version(g)
+                    if hv is None:
+                        stats['handout:touched-block:unformattable'] += 1
+                        all_same = False
+                        continue
+                    views = [('block.version', str(g.version))]
+                    if len(vers) == nb:
+                        views.append(('cl.versions[%d]' % j, vers[j]))
+                    if j == 0:
+                        views.append(('cl.version', str(cl.version)))
+                        views.append(('cl.get_version()', str(cl.get_version())))
+                    for name, val in views:
+                        if val != hv:
+                            found.append(('handed-out-mutation/block-version-disagrees-with-its-own-heading' + tagc,
+                                          '[%s] %s is now %s but the heading line of that block (str(block)) says (%s); '
+                                          'written: %s' % (label, name, _r(val), hv, _r(b['v']))))
+                            break
+                else:
+                    same_v = b['v'] in touched_versions
+                    if same_v:
+                        stats['handout:untouched-block-with-the-same-version-string'] += 1
+                    else:
+                        stats['handout:untouched-block'] += 1
+                    suffix = '/block-with-the-same-version-string' if same_v else ''
+                    for name, w, have in probs:
+                        found.append(('handed-out-mutation-changed-other-block/%s%s%s' % (name, suffix, tagc),
+                                      '[%s] block %d (not touched) %s: wrote %s, now %s' % (label, j, name, _r(w), _r(have))))
+                    if len(vers) == nb and vers[j] != b['v']:
+                        found.append(('handed-out-mutation-changed-other-block/versions-list%s%s' % (suffix, tagc),
+                                      '[%s] Changelog.versions[%d] (block not touched): wrote %s, now %s'
+                                      % (label, j, _r(b['v']), _r(vers[j]))))
+            if len(vers) != nb and 'versions-list' not in cl_touched:
+                found.append(('handed-out-mutation-changed-block-count' + tagc,
+                              '[%s] Changelog.versions has %d entries, %d blocks' % (label, len(vers), nb)))
+            if all_same:
+                stats['handout:subject-fully-rejudged'] += 1
+                for k, msg in judge_object(cl, m, label, text, lines, classes, stats):
+                    found.append(('handed-out-mutation-changed-the-changelog/%s%s' % (k, tagc), msg))
+            else:
+                # the text outside the touched blocks: everything before the heading of the first touched block
+                # and everything from the heading that follows the last touched block
+                stats['handout:subject-text-outside-touched-blocks'] += 1
+                heads = [x for x, c in enumerate(classes) if c == 'header-line']
+                tmin = min(touched) if touched else nb
+                tmax = max(touched) if touched else -1
+                pre_n = heads[tmin] if tmin < nb else len(lines)
+                suf_n = (len(lines) - heads[tmax + 1]) if tmax + 1 < nb else 0
+                if 'initial-blank-lines-list' in cl_touched:
+                    pre_n = 0
+                try:
+                    gl = str(cl).split('\n')
+                except Exception:
+                    gl = None
+                    stats['handout:subject-unformattable'] += 1
+                if gl is not None:
+                    if gl and gl[-1] == '':
+                        gl.pop()
+                    if gl[:pre_n] != lines[:pre_n]:
+                        found.append(('handed-out-mutation-changed-other-block/text-before-the-touched-block' + tagc,
+                                      '[%s] the first %d lines of str(changelog) (up to the heading of the touched block) '
+                                      'were %s, now %s' % (label, pre_n, _r(lines[:pre_n]), _r(gl[:pre_n]))))
+                    if suf_n and gl[len(gl) - suf_n:] != lines[len(lines) - suf_n:]:
+                        found.append(('handed-out-mutation-changed-other-block/text-after-the-touched-block' + tagc,
+                                      '[%s] the last %d lines of str(changelog) (from the heading after the touched block) '
+                                      'were %s, now %s' % (label, suf_n, _r(lines[len(lines) - suf_n:]), _r(gl[len(gl) - suf_n:]))))
+        except Exception as e:
+            found.append(('handed-out-mutation/reading-raises/%s%s' % (type(e).__name__, tagc),
+                          '[%s] reading the changelog after the caller-side mutation raised %s: %s'
+                          % (label, type(e).__name__, _r(str(e)))))
+            break
+        # ---- the objects that existed before the mutation
+        for ki, (rel, c, mm, (t, ls, cs)) in enumerate(kept):
+            if c is None:
+                continue
+            stats['M.handout.later'] += 1
+            shares = any(b['v'] in touched_versions for b in mm['blocks'])
+            stats['handout:existing-object:%s%s' % (rel, ':shares-version-string' if shares else '')] += 1
+            r2 = judge_object(c, mm, 'another Changelog (%s) built BEFORE; %s' % (rel, label), t, ls, cs, None)
+            for k, msg in r2:
+                found.append(('handed-out-mutation-changed-another-changelog/%s/%s%s' % (rel, k, tagc), msg))
+            if r2:
+                kept[ki] = (rel, None, mm, (t, ls, cs))
+        # ---- objects built afterwards (after EVERY mutation, so that the mutation to blame is known)
+        for li, (rel, mm, f, (t, ls, cs)) in enumerate(later):
+            if mm is None:
+                continue
+            stats['M.handout.later'] += 1
+            shares = any(b['v'] in touched_versions for b in mm['blocks'])
+            stats['handout:fresh-object:%s%s' % (rel, ':shares-version-string' if shares else '')] += 1
+            r3 = check_form(mm, f, t, ls, cs, None)
+            for k, msg in r3:
+                found.append(('handed-out-mutation-visible-in-later-parse/%s/%s%s' % (rel, k, tagc),
+                              '%s  [fresh Changelog built AFTER the caller mutated a value handed out by an earlier one '
+                              '(%s); the same parse was clean before]' % (msg, label)))
+            if r3:
+                later[li] = (rel, None, f, None)
+    return _dedupe(found)
+
+
+def run_seq(case, stats=None):
+    found = []
+    for c in case['cases']:
+        found.extend(evaluate_any(c, stats))
+    return _dedupe(found)
+
+
+def case_problem(case):
+    kind = case.get('kind') if isinstance(case, dict) else None
+    if kind == 'cl':
+        return grammar_problem(case)
+    if kind == 'reuse':
+        return reuse_problem(case)
+    if kind == 'handout':
+        return handout_problem(case)
+    if kind == 'seq':
+        if not (isinstance(case.get('cases'), list) and 1 <= len(case['cases']) <= 6):
+            return 'seq'
+        for c in case['cases']:
+            if not isinstance(c, dict) or c.get('kind') == 'seq':
+                return 'seq member'
+            why = case_problem(c)
+            if why:
+                return why
+        return None
+    return 'unknown kind'
+
+
+def evaluate_any(case, stats=None):
+    kind = case['kind']
+    if kind == 'cl':
+        return evaluate(case, stats)
+    if kind == 'reuse':
+        return run_reuse(case, stats)
+    if kind == 'handout':
+        return run_handout(case, stats)
+    return run_seq(case, stats)
+
+
+NEW_KEY_PREFIXES = ('reused-object-differs-from-fresh/', 'earlier-object-changed-by-later-parse/',
+                    'handed-out-mutation', 'depends-on-earlier-calls-in-this-process/')
+
+
+def is_ordinary_key(key):
+    return not key.startswith(NEW_KEY_PREFIXES)
+
+
+# ---------------------------------------------------------------------------
+# generators of the two second-use classes
+
+def gen_dirt(r, m):
+    nb = len(m['blocks'])
+    k = r.choice(DIRT_KINDS)
+    if k == 'trail':
+        return ['trail', list(r.choice(TRAIL_JUNK))]
+    if k == 'lead':
+        return ['lead', list(r.choice(LEAD_JUNK))]
+    if k == 'trunc':
+        last = m['blocks'][-1]
+        return ['trunc', r.randint(1, len(last['body']) + 1)]
+    if k == 'mid':
+        return ['mid', r.choice([0, nb - 1]), r.choice(MID_JUNK)]
+    if k == 'trailer1':
+        return ['trailer1', r.choice([0, nb - 1])]
+    if k == 'badhead':
+        return ['badhead', r.choice([0, nb - 1]), r.choice(HEAD_JUNK)]
+    if k == 'max':
+        return ['max', r.randint(0, max(0, nb - 1))]
+    if k == 'none':
+        return ['none']
+    return ['empty', r.choice(EMPTY_TEXTS)]
+
+
+def gen_reuse_model(r, wide):
+    m = gen_model(r, wide)
+    m['lead'] = r.choice([0, 0, 1, 2, 3])
+    return m
+
+
+def gen_reuse(r, wide):
+    steps = []
+    n0 = r.choice([2, 2, 3, 3, 4])
+    two = r.random() < 0.35
+    order = [0] * n0 + ([1] * r.choice([1, 2, 2]) if two else [])
+    if two:
+        # object 0 keeps its last position (its last step is judged), the rest is interleaved
+        head = order[:-1]
+        r.shuffle(head)
+        order = head + [0]
+        if r.random() < 0.5:
+            order.append(1)
+    seen = set()
+    last_of = {}
+    for i, o in enumerate(order):
+        last_of[o] = i
+    for i, o in enumerate(order):
+        first = o not in seen
+        seen.add(o)
+        st = {'o': o, 'm': gen_reuse_model(r, wide), 'form': r.choice(DATA_FORMS), 'dirt': None, 'strict': None}
+        if first:
+            st['via'] = r.choice(['ctor', 'ctor-kw', 'ctor-kw', 'method', 'method-kw'])
+        else:
+            st['via'] = r.choice(['method', 'method', 'method-kw'])
+        final = last_of[o] == i
+        if not final and r.random() < 0.45:
+            st['dirt'] = gen_dirt(r, st['m'])
+            if st['via'].startswith('ctor'):
+                st['strict'] = r.choice([None, None, False])      # a raising constructor leaves no object behind
+            else:
+                st['strict'] = r.choice([None, True, False, False])
+        else:
+            # judged step: mostly strict (for the method, None = its default = strict); sometimes not
+            if st['via'].startswith('ctor'):
+                st['strict'] = r.choice([True, True, True, None, False])
+            else:
+                st['strict'] = r.choice([True, True, None, None, False])
+        steps.append(st)
+    return {'kind': 'reuse', 'steps': steps}
+
+
+def gen_handout(r, wide):
+    nb = r.choice([1, 2, 2, 3, 3, 4])
+    blocks = [gen_block(r, wide) for _ in range(nb)]
+    for b in blocks[:-1]:
+        b['gap'] = r.choice([1, 1, 1, 2])
+    m = {'kind': 'cl', 'lead': r.choice([0, 0, 0, 1, 2]), 'blocks': blocks}
+    if nb >= 2 and r.random() < 0.6:
+        a, z = r.sample(range(nb), 2)
+        blocks[z]['v'] = blocks[a]['v']
+        if nb >= 3 and r.random() < 0.3:
+            blocks[r.randrange(nb)]['v'] = blocks[a]['v']
+    muts = []
+    for _ in range(r.choice([1, 1, 1, 2, 3])):
+        if r.random() < 0.65:
+            src = r.choice(VERSION_SRCS)
+        else:
+            src = r.choice(sorted(CONTAINER_SRCS))
+        i = 0 if src in FIRST_ONLY_SRCS else r.randrange(nb)
+        op = r.choice(_ops_for(src))
+        if src in VERSION_SRCS and r.random() < 0.3:
+            attr = r.choice(['epoch', 'upstream_version', 'debian_revision', 'full_version'])
+            op = [attr, {'epoch': str(r.randrange(10)), 'upstream_version': gen_ver(r).split(':')[-1].split('-')[0] or '1',
+                         'debian_revision': str(r.randrange(100)), 'full_version': gen_ver(r)}[attr]]
+        muts.append({'src': src, 'blk': i, 'op': [list(x) if isinstance(x, list) else x for x in op]})
+    later = []
+    for _ in range(r.choice([1, 1, 2])):
+        lm = gen_model(r, wide)
+        if r.random() < 0.85:
+            lm['blocks'][r.randrange(len(lm['blocks']))]['v'] = blocks[muts[0]['blk']]['v']
+        later.append(lm)
+    return {'kind': 'handout', 'm': m, 'form': r.choice(FORMS), 'muts': muts, 'later': later}
+
+
+def _mm(lead, specs):
+    """Small fixed model: specs = [(version, extra block fields)], newest first."""
+    blocks = []
+    for i, (v, kw) in enumerate(specs):
+        b = dict(BASE, v=v, gap=1, body=['', '  * entry %d of %s' % (i, v), ''])
+        b.update(kw)
+        blocks.append(b)
+    blocks[-1]['gap'] = 0
+    return {'kind': 'cl', 'lead': lead, 'blocks': blocks}
+
+
+def reuse_matrix():
+    """Fixed second-use cases (same for every seed and tier)."""
+    A = _mm(0, [('1.0-1', {})])
+    B = _mm(2, [('3.0-1', {'gap': 2}), ('2.0-1', {'d': ['stable', 'x+y'], 'u': 'HIGH'}), ('1.0-1', {'n': 'Zo\u00eb Q. X'})])
+    C = _mm(1, [('2:1.0-2', {'c': '(security fix)', 'kv': [['binary-only', 'yes'], ['X-Foo', 'a b']]}),
+                ('1.0-1', {'body': ['  * no blank around', '', '    second']})])
+    models = [('A', A), ('B', B), ('C', C)]
+    out = []
+    forms = list(DATA_FORMS)
+    n = [0]
+
+    def form():
+        n[0] += 1
+        return forms[n[0] % len(forms)]
+
+    def step(o, via, m, dirt=None, strict=None):
+        return {'o': o, 'via': via, 'm': m, 'form': form(), 'dirt': dirt, 'strict': strict}
+
+    dirts = []
+    for junk in TRAIL_JUNK:
+        dirts.append(lambda m, junk=junk: ['trail', list(junk)])
+    for junk in LEAD_JUNK[:3]:
+        dirts.append(lambda m, junk=junk: ['lead', list(junk)])
+    dirts.append(lambda m: ['trunc', 1])
+    dirts.append(lambda m: ['trunc', 2])
+    dirts.append(lambda m: ['mid', len(m['blocks']) - 1, 'garbage'])
+    dirts.append(lambda m: ['mid', 0, 'garbage'])
+    dirts.append(lambda m: ['trailer1', len(m['blocks']) - 1])
+    dirts.append(lambda m: ['trailer1', 0])
+    dirts.append(lambda m: ['badhead', len(m['blocks']) - 1, ', junk'])
+    dirts.append(lambda m: ['badhead', 0, ', urgency=high'])
+    dirts.append(lambda m: ['max', 1])
+    dirts.append(lambda m: ['max', 0])
+    dirts.append(lambda m: ['none'])
+    dirts.append(lambda m: ['empty', ''])
+    dirts.append(lambda m: ['empty', '\n\n'])
+    # clean -> clean, every ordered pair, constructor and method as first use, then a third use
+    for na, a in models:
+        for nb_, b in models:
+            for via in ('ctor-kw', 'ctor', 'method'):
+                out.append({'kind': 'reuse', 'steps': [step(0, via, a, strict=True if via != 'method' else None),
+                                                       step(0, 'method', b, strict=True)]})
+            out.append({'kind': 'reuse', 'steps': [step(0, 'method', a, strict=False), step(0, 'method-kw', b, strict=False)]})
+            c = models[(n[0]) % 3][1]
+            out.append({'kind': 'reuse', 'steps': [step(0, 'ctor-kw', a, strict=None), step(0, 'method-kw', b, strict=None),
+                                                   step(0, 'method', c, strict=True)]})
+    # dirty first use (non-strict constructor / strict and non-strict method) -> clean second use
+    for di, d in enumerate(dirts):
+        for nm, m in (('B', B), ('C', C)):
+            nxt = models[(di + (nm == 'C')) % 3][1]
+            out.append({'kind': 'reuse', 'steps': [step(0, 'ctor-kw', m, d(m), None), step(0, 'method', nxt, strict=True)]})
+            out.append({'kind': 'reuse', 'steps': [step(0, 'method', m, d(m), True), step(0, 'method', nxt, strict=None)]})
+            out.append({'kind': 'reuse', 'steps': [step(0, 'method', m, d(m), False), step(0, 'method-kw', nxt, strict=True)]})
+            # clean, dirty, clean
+            out.append({'kind': 'reuse', 'steps': [step(0, 'ctor', nxt, strict=True), step(0, 'method', m, d(m), r_strict(di)),
+                                                   step(0, 'method', models[(di + 1) % 3][1], strict=True)]})
+    # two objects alive at the same time
+    for na, a in models:
+        for nb_, b in models:
+            out.append({'kind': 'reuse', 'steps': [step(0, 'ctor-kw', a, strict=True), step(1, 'ctor', b, strict=True),
+                                                   step(0, 'method', b, strict=True), step(1, 'method', a, strict=True)]})
+    return out
+
+
+def r_strict(i):
+    return (True, False, None)[i % 3]
+
+
+def handout_matrix():
+    """Fixed caller-side mutation cases (same for every seed and tier)."""
+    H = _mm(1, [('1.0-1', {'kv': [['binary-only', 'yes']], 'body': ['', '  * closes: #123', '  * LP: #456', '']}),
+                ('0.9-1', {}), ('1.0-1', {'d': ['stable']}), ('0.8', {})])
+    L1 = _mm(0, [('1.0-1', {'p': 'other', 'body': ['', '  * unrelated package, same version', '']})])
+    L2 = _mm(0, [('2.0', {}), ('0.9-1', {'p': 'third'}), ('0.8', {'p': 'third'})])
+    out = []
+    n = 0
+    for src in VERSION_SRCS:
+        for op in VERSION_OPS:
+            for i in ((0,) if src in FIRST_ONLY_SRCS else (0, 2, 1)):
+                n += 1
+                if i == 1 and n % 3:
+                    continue
+                out.append({'kind': 'handout', 'm': H, 'form': FORMS[n % len(FORMS)],
+                            'muts': [{'src': src, 'blk': i, 'op': list(op)}], 'later': [L1, L2]})
+    for src in sorted(CONTAINER_SRCS):
+        for op in _ops_for(src):
+            for i in ((0,) if src.startswith('cl.') else (0, 1, 3)):
+                n += 1
+                out.append({'kind': 'handout', 'm': H, 'form': FORMS[n % len(FORMS)],
+                            'muts': [{'src': src, 'blk': i, 'op': list(op)}], 'later': [L1, L2]})
+    # several values of one changelog mutated in a row
+    out.append({'kind': 'handout', 'm': H, 'form': 'str', 'later': [L1, L2],
+                'muts': [{'src': 'block.version', 'blk': 0, 'op': ['debian_revision', '5']},
+                         {'src': 'cl.versions[i]', 'blk': 1, 'op': ['epoch', '1']},
+                         {'src': 'block.other_pairs', 'blk': 1, 'op': ['set', 'X-Injected', 'yes']},
+                         {'src': 'block.changes()', 'blk': 3, 'op': ['append', '  * injected']}]})
+    return out
+
+
+# ---------------------------------------------------------------------------
+# shrinking witnesses of the second-use classes (keeps the mechanism key)
+
+def _simpler_model(m):
+    """Same number of blocks, same versions and blank-line layout between blocks, everything else from BASE."""
+    blocks = [dict(BASE, v=b['v'], gap=b.get('gap', 0), body=['', '  * entry %d' % i, '']) for i, b in enumerate(m['blocks'])]
+    return {'kind': 'cl', 'lead': m.get('lead', 0), 'blocks': blocks}
+
+
+def _variants_new(case):
+    kind = case['kind']
+    if kind == 'reuse':
+        steps = case['steps']
+        if any(st['o'] == 1 for st in steps):
+            yield dict(case, steps=[st for st in steps if st['o'] == 0])
+        for i in range(len(steps) - 1):
+            rest = steps[:i] + steps[i + 1:]
+            # a method step may have become the first use of its object: fine (Changelog() is made for it)
+            yield dict(case, steps=rest)
+        for i, st in enumerate(steps):
+            def sub(**kw):
+                ns = [dict(x) for x in steps]
+                ns[i].update(kw)
+                return dict(case, steps=ns)
+            if st['form'] != 'str':
+                yield sub(form='str')
+            m = st['m']
+            if len(m['blocks']) > 1 and st.get('dirt') is None:
+                yield sub(m=dict(m, blocks=[dict(m['blocks'][0], gap=0)]))
+                yield sub(m=dict(m, blocks=[dict(b) for b in m['blocks'][:-2]] + [dict(m['blocks'][-2], gap=0)]))
+            if m.get('lead') and st.get('dirt') is None:
+                yield sub(m=dict(m, lead=0))
+            sm = _simpler_model(m)
+            if sm != m:
+                yield sub(m=sm)
+    elif kind == 'handout':
+        muts = case['muts']
+        if len(muts) > 1:
+            for i in range(len(muts)):
+                yield dict(case, muts=muts[:i] + muts[i + 1:])
+        later = case.get('later', [])
+        for i in range(len(later)):
+            yield dict(case, later=later[:i] + later[i + 1:])
+        if case['form'] != 'str':
+            yield dict(case, form='str')
+        m = case['m']
+        used = max(mu['blk'] for mu in muts)
+        if len(m['blocks']) - 1 > used:
+            nb = [dict(b) for b in m['blocks'][:-1]]
+            nb[-1]['gap'] = 0
+            yield dict(case, m=dict(m, blocks=nb))
+        if m.get('lead'):
+            yield dict(case, m=dict(m, lead=0))
+        sm = _simpler_model(m)
+        if sm != m:
+            yield dict(case, m=sm)
+        for i, lm in enumerate(later):
+            sl = _simpler_model(lm)
+            if sl != lm:
+                yield dict(case, later=later[:i] + [sl] + later[i + 1:])
+
+
+def key_stem(key):
+    """A handed-out-mutation key without the trailing '/mutated:<classes>' (the classes change while shrinking)."""
+    return key.split('/mutated:', 1)[0]
+
+
+def shrink_new(case, key, budget=60):
+    stem = key_stem(key)
+    progress = True
+    while progress and budget > 0:
+        progress = False
+        for cand in _variants_new(case):
+            budget -= 1
+            if budget <= 0:
+                break
+            if case_problem(cand) is not None:
+                continue
+            try:
+                keys = [k for k, _m in evaluate_any(cand)]
+            except Exception:
+                continue
+            if key in keys or (stem != key and stem in [key_stem(k) for k in keys]):
+                case = cand
+                progress = True
+                break
+    return case
+
+
+# ---------------------------------------------------------------------------
+# confirmation in a fresh interpreter (only after this process mutated handed-out values)
+
+_STANDALONE = ('import sys, json\n'
+               'from vp import core\n'
+               'core.bootstrap_repo()\n'
+               'from vp.props import c04\n'
+               'sys.stdout.write("RESULT " + json.dumps(c04.standalone(json.load(sys.stdin))))\n')
+
+
+def standalone(case):
+    if case_problem(case) is not None:
+        return None
+    return [[k, m] for k, m in evaluate_any(case)]
+
+
+def fails_standalone(case):
+    """[[key, msg], ...] the case shows when it is all a fresh interpreter executes (what --replay does); 'unknown'."""
+    import json
+    import subprocess
+    import sys
+    from .. import core
+    try:
+        p = subprocess.run([sys.executable, '-B', '-c', _STANDALONE], input=json.dumps(case).encode('ascii'),
+                           stdout=subprocess.PIPE, stderr=subprocess.DEVNULL, timeout=300, cwd=core.VERIF)
+        out = p.stdout.decode('utf-8', 'replace')
+        if p.returncode != 0 or 'RESULT ' not in out:
+            return 'unknown'
+        got = json.loads(out.split('RESULT ', 1)[1])
+        return 'unknown' if got is None else got
+    except Exception:
+        return 'unknown'
+
+
+# ---------------------------------------------------------------------------
 # shrinking a witness (keeps the mechanism key)
 
 def _variants(case):
@@ -748,30 +1922,55 @@ def shrink(case, key, budget=400):
 
 # ---------------------------------------------------------------------------
 
-def run_case(ctx, case):
-    why = grammar_problem(case)
-    if why is not None:
-        # never accuse the library on a text outside the statement's grammar
-        ctx.count('skipped:outside-grammar')
-        ctx.inconclusive.append('case outside the C04 grammar (%s) - generator/replay-file problem, not a verdict' % why)
+def _versions_of(case):
+    kind = case.get('kind')
+    if kind == 'cl':
+        return [b['v'] for b in case['blocks']]
+    if kind == 'reuse':
+        return [b['v'] for st in case['steps'] for b in st['m']['blocks']]
+    if kind == 'handout':
+        return [b['v'] for mm in [case['m']] + list(case.get('later', [])) for b in mm['blocks']]
+    return []
+
+
+def report(ctx, case, key, msg):
+    """Record one finding of one case: shrunk, replayable witness; a finding of the ordinary kind made after this
+    process mutated handed-out values is first re-executed in a fresh interpreter."""
+    plain = {k: v for k, v in case.items() if k != 'matrix'}
+    kind = case['kind']
+    if is_ordinary_key(key) and TAINTED[0] is not None and kind != 'seq' and not ctx.replay:
+        culprit = TAINTED[0]
+        for v in _versions_of(case):
+            if v in TAINT:
+                culprit = TAINT[v]
+                break
+        seq = {'kind': 'seq', 'cases': [{k: v for k, v in culprit.items() if k != 'matrix'}, plain]}
+        skey = 'depends-on-earlier-calls-in-this-process/' + key
+        if key in STATEFUL_KEYS:
+            ctx.violation(skey, msg, seq)
+            return
+        if ctx.viol_count[key] < 3 and CONFIRM_BUDGET[0] > 0 and culprit is not case:
+            CONFIRM_BUDGET[0] -= 1
+            alone = fails_standalone(plain)
+            if alone != 'unknown' and key not in [k for k, _m in alone]:
+                STATEFUL_KEYS.add(key)
+                again = fails_standalone(seq)
+                if again != 'unknown' and key in [k for k, _m in again]:
+                    note = ('  [the case is clean when it is all a fresh interpreter executes; it fails as recorded when '
+                            'the earlier case of this process that mutated handed-out values runs first - witness = both]')
+                else:
+                    note = ('  [the case is clean when it is all a fresh interpreter executes, and also with the suspected '
+                            'earlier case as prelude: the result depends on what this process did before]')
+                ctx.violation(skey, msg + note, seq)
+                return
+        elif ctx.viol_count[key] < 3 and culprit is not case:
+            msg += ('  [found after this process mutated handed-out values; not re-executed in a fresh interpreter - '
+                    'the confirmation budget of this shard is used up]')
+    if ctx.viol_count[key] >= 3:
+        # already have shrunk witnesses for this mechanism: count only
+        ctx.violation(key, msg, plain)
         return
-    stats = collections.Counter()
-    found = evaluate(case, stats)
-    for k, n in stats.items():
-        if k.startswith('M'):
-            ctx.mon(k, n)
-        else:
-            ctx.count(k, n)
-    if case.get('matrix'):
-        ctx.count('matrix')
-    note_features(ctx, case)
-    if is_nontrivial(case):
-        ctx.nontrivial(case)
-    for key, msg in found:
-        if ctx.viol_count[key] >= 3:
-            # already have shrunk witnesses for this mechanism: count only
-            ctx.violation(key, msg, {k: v for k, v in case.items() if k != 'matrix'})
-            continue
+    if kind == 'cl':
         small = shrink(case, key)
         allforms = {k: v for k, v in small.items() if k != 'form'}
         for k2, m2 in evaluate(allforms):      # message for the shrunk witness, listing every form that shows it
@@ -779,6 +1978,48 @@ def run_case(ctx, case):
                 msg = m2
         text = render(small)[0]
         ctx.violation(key, '%s | witness text: %s' % (msg, _r(text, 700)), small)
+        return
+    if kind == 'seq' or SHRINK_BUDGET[0] <= 0:
+        small = plain
+    else:
+        SHRINK_BUDGET[0] -= 1
+        small = shrink_new(plain, key)
+    if small is not plain:
+        for k2, m2 in evaluate_any(small):
+            if key_stem(k2) == key_stem(key):
+                key, msg = k2, m2         # the shrunk witness names the one mutated value that is enough
+                break
+    ctx.violation(key, msg, small)
+
+
+def run_case(ctx, case):
+    why = case_problem(case)
+    if why is not None:
+        # never accuse the library on a text outside the statement's grammar
+        ctx.count('skipped:outside-grammar')
+        ctx.inconclusive.append('case outside the C04 grammar (%s) - generator/replay-file problem, not a verdict' % why)
+        return
+    kind = case['kind']
+    stats = collections.Counter()
+    found = evaluate_any(case, stats)
+    for k, n in stats.items():
+        if k.startswith('M'):
+            ctx.mon(k, n)
+        else:
+            ctx.count(k, n)
+    if kind == 'cl':
+        if case.get('matrix'):
+            ctx.count('matrix')
+        note_features(ctx, case)
+        if is_nontrivial(case):
+            ctx.nontrivial(case)
+    else:
+        if case.get('matrix'):
+            ctx.count('matrix:' + kind)
+        if stats.get('M.reuse') or stats.get('M.handout') or kind == 'seq':
+            ctx.nontrivial(case)
+    for key, msg in found:
+        report(ctx, case, key, msg)
 
 
 def note_features(ctx, case):
